@@ -333,6 +333,9 @@ class HashClient:
 
         try:
             failed = client.set_many(values, *args, **kwargs)
+        except OSError as e:
+            # a connection error must always reach the failover bookkeeping
+            return succeeded, failed, e
         except Exception as e:
             if not self.ignore_exc:
                 return succeeded, failed, e
